@@ -748,6 +748,10 @@ def container_cases():
                     if ct != "list" and not (k1 == k2 or k2 == k3):
                         continue
                     out.append((ct, (k1, k2, k3)))
+    # wide sequences: two-digit keys (str(i) for i >= 10), per-item path and ndarray fast path
+    out.append(("list", ("str",) * 11))
+    out.append(("tuple", ("none", "str", "int", "path") * 3))
+    out.append(("list", ("int",) * 11))
     return out
 
 
@@ -782,6 +786,8 @@ def mk_container(ctx, ct, kinds):
 
 
 def case_tag(ct, kinds):
+    if len(kinds) > 4:
+        return f"{ct}({len(kinds)}x:{','.join(sorted(set(kinds)))})"
     return f"{ct}({','.join(kinds)})"
 
 
@@ -1583,6 +1589,10 @@ def rt_values(inp):
             r1, e1 = real_roundtrip(Box(v=concrete(dsc, inp.get("dims"))), **kw)
             for k, w, m in e1:
                 problems.append((k + " [" + kind_class(dsc) + "]", f".v{i}", f"{dsc}: {m}"))
+        if len(problems) > max(6, len(descs) // 2):
+            # (nearly) every value fails: it is not about the value kind
+            k0 = problems[0][0].split(" [")[0]
+            problems = [(k0 + " [any value]", problems[0][1], problems[0][2])] + [p for p in problems if not p[0].startswith(k0)]
         if not problems:
             problems += exc
     elif exc:
@@ -2103,3 +2113,122 @@ EXPLANATION = ("VCs generated at check time from the real source of AutoSerializ
                "_array_to_np/_read_array_np/_convert_string_to_path_if_needed/_is_numeric_scalar/_recursive_load/_deserialize_container and module-level load, "
                "executed symbolically over an abstract zarr group with kind-abstract values and symbolic names; every reader is verified on the state the real writer produced; "
                "meta-level clauses are decided by path enumeration (backend 'simplify'), name/shape/set clauses by z3")
+
+
+# ------------------------------------------------------------------------------------------------
+# run-time oracles for save / load (replay of counter-models of their contracts)
+# ------------------------------------------------------------------------------------------------
+
+
+def _skip_concrete(form):
+    import numpy as np
+
+    n1, n2, T = "a", "raw", np.ndarray
+    return {"()": (), "name": n1, "type": T, "[n1]": [n1], "[n1,T]": [n1, T], "[n1,n2]": [n1, n2], "(n1,n1)": (n1, n1)}[form], \
+           {"()": [], "name": [n1], "type": [], "[n1]": [n1], "[n1,T]": [n1], "[n1,n2]": [n1, n2], "(n1,n1)": [n1]}[form], \
+           ([T] if form in ("type", "[n1,T]") else [])
+
+
+def rt_save(inp):
+    """save() on the real code against its documented behaviour: inp = dict(pathform, mode, store, compression, name, exists, isdir, skipform)."""
+    import contextlib
+    import io as _io
+    import pathlib
+    import warnings
+
+    from quantem.core.io.serialize import load
+
+    d = _tmpdir()
+    name = inp.get("name") or "target"
+    if not all(ch.isalnum() or ch in "._-" for ch in name) or name in (".", ".."):
+        name = "target.zip" if name.endswith(".zip") else "target.dat" if "." in name.strip(".") else "target"
+    p = os.path.join(d, name)
+    store, mode, c = inp.get("store", "auto"), inp.get("mode", "w"), inp.get("compression")
+    is_zip = store == "zip" or (store == "auto" and p.endswith(".zip"))
+    is_dir = store == "dir" or (store == "auto" and not p.endswith(".zip"))
+    final = p + ".zip" if is_zip and not p.endswith(".zip") else p
+    if inp.get("exists"):
+        if inp.get("isdir"):
+            os.makedirs(final)
+        else:
+            open(final, "w").write("old")
+    skip, names, types = _skip_concrete(inp.get("skipform", "()"))
+    expect = None
+    if c is not None and not (0 <= c <= 9):
+        expect = ValueError
+    elif inp.get("exists") and mode != "o":
+        expect = FileExistsError
+    elif store not in ("auto", "zip", "dir") or (is_dir and os.path.splitext(p)[1]):
+        expect = ValueError
+    fx = skip_fixture()
+    target = pathlib.Path(p) if inp.get("pathform") == "Path" else p
+    problems = []
+    with warnings.catch_warnings(), contextlib.redirect_stdout(_io.StringIO()):
+        warnings.simplefilter("ignore")
+        try:
+            fx.save(target, mode=mode, store=store, skip=skip, compression_level=c)
+            raised = None
+        except Exception as e:
+            raised = e
+        if expect is not None:
+            if raised is None or not isinstance(raised, expect):
+                problems.append(f"expected {expect.__name__}, got {type(raised).__name__ if raised else 'normal return'}")
+        elif raised is not None:
+            problems.append(f"save raised {type(raised).__name__}: {raised}")
+        else:
+            if is_zip and not os.path.isfile(final) or is_dir and not os.path.isdir(final):
+                problems.append(f"nothing written at {os.path.basename(final)} ({'zip file' if is_zip else 'directory'} expected)")
+            else:
+                try:
+                    r = load(final)
+                    probs = []
+                    equiv_rt(strip_root_meta(r), filter_expected(fx, set(names), types), "", probs)
+                    problems += [f"{k} at {w}: {m}" for k, w, m in probs if not k.startswith("set ->") and "0-d" not in k]
+                except Exception as e:
+                    problems.append(f"load of the written file raised {type(e).__name__}: {e}")
+            left = [x for x in os.listdir(d) if x != os.path.basename(final)]
+            if left:
+                problems.append(f"other paths written next to the target: {left}")
+    return dict(violated=bool(problems), observed="; ".join(problems[:3]) or "ok",
+                expected="ValueError for bad compression/store/dir-with-extension, FileExistsError for existing target unless mode='o', else exactly the target written and loadable")
+
+
+def conc_save(ev, part=(0, 1)):
+    def pk(name, opts):
+        i = ev(name)
+        return opts[i] if isinstance(i, int) and 0 <= i < len(opts) else opts[0]
+
+    skipm = MODE["skip"]
+    store = pk("store", sub(["auto", "zip", "dir", "bogus"] if not skipm else ["zip", "dir"], part))
+    c = None if pk("compression", ["none", "int"] if not skipm else ["none"]) == "none" else ev("compression_level", 4)
+    return dict(pathform=pk("pathform", ["str", "Path"] if not skipm else ["str"]), mode=pk("mode", ["w", "o"] if not skipm else ["w"]), store=store,
+                compression=c, name=ev("path", "target"), exists=bool(ev("fs_exists", False)), isdir=bool(ev("fs_isdir", False)), skipform=pk("skipform", skip_forms()))
+
+
+def rt_load(inp):
+    sskip, snames, stypes = _skip_concrete(inp.get("save_skipform", "()"))
+    lskip, lnames, ltypes = _skip_concrete(inp.get("load_skipform", "()"))
+    fx = skip_fixture()
+    problems = []
+    r, exc = real_roundtrip(fx, store=inp.get("store", "zip"), pathtype=inp.get("pathform", "str"), skip_save=sskip, skip_load=[x for x in (lskip if isinstance(lskip, (list, tuple)) else [lskip]) if isinstance(x, str)])
+    if exc:
+        problems += [m for k, w, m in exc]
+    else:
+        probs = []
+        equiv_rt(strip_root_meta(r), filter_expected(fx, set(snames) | set(lnames), stypes), "", probs)
+        problems += [f"{k} at {w}: {m}" for k, w, m in probs]
+    return dict(violated=bool(problems), observed="; ".join(problems[:3]) or "ok", expected="load decodes the saved object under user skip names + persisted skip names")
+
+
+def conc_load(ev):
+    def pk(name, opts):
+        i = ev(name)
+        return opts[i] if isinstance(i, int) and 0 <= i < len(opts) else opts[0]
+
+    return dict(store=pk("store", ["zip", "dir"]), pathform=pk("pathform", ["str", "Path"] if not MODE["skip"] else ["str"]),
+                save_skipform=pk("save_skipform", skip_forms()), load_skipform=pk("load_skipform", skip_forms()))
+
+
+for _i, _c in enumerate(C_SAVES):
+    _c.concretize, _c.rt = functools.partial(conc_save, part=(_i, 2)), rt_save
+C_LOAD.concretize, C_LOAD.rt = conc_load, rt_load
